@@ -260,6 +260,7 @@ fn slow_threshold() -> Option<u64> {
 
 fn run_one(run: CaseFn, c: &mut dyn Choices, ctx: &Ctx) -> Outcome {
   beat();
+  crate::vtime::set_unit(1);
   // single-thread engines: a re-lock of a held MutArc is a self-deadlock verdict, not a hang
   if crate::hooks::mode() == crate::hooks::ThreadMode::Unmanaged {
     crate::hooks::set_mode(crate::hooks::ThreadMode::Solo);
